@@ -5,10 +5,20 @@ check("C01", "model_checking",
       "call on either side, closure per loop iteration, blob method; ~14k programs) with spec invariants (heap well-formed, the typed generator never gets "
       "stuck) and prints the expected trace; each program is rendered, compiled by the real compiler, run in minilua, and the print sequence and terminal "
       "status must be equal. Bounded-exhaustive over that universe. "
+      "Two further universes go the same way (spec/MC_SemX.tla): SyltLimits - literal arithmetic at the numeric limits: every ordered pair of 14 int atoms "
+      "(2^63-1, 2^62, 2^32, 2^31, ~sqrt 2^63, their negations, small ints) and 11 float atoms (2^1023, 1.5*2^1023, 2^512, +-0.0, small floats) under every "
+      "operator, written with literals only / through variables / half and half / as a global / negated / as compound assignment, a second level on top of every "
+      "result that is a limit value and every kind of enclosing expression around the results that are MIN, MAX, an infinity, a NaN or -0.0, plus float literals "
+      "beyond the largest double (1 825 programs, ~51k print events); the expectation is SyltNum64 (64-bit words as 8 bytes, arithmetic modulo 2^64, decimal text) and "
+      "the IEEE rules for overflow, NaN and the sign of zero in SyltValues. SyltNestSelf - blob literals nested in methods of blob literals, both with a field n: "
+      "16 field shapes (function literal, parenthesised once / twice, call with one / two function-literal arguments, if- / case-picked, IIFE, tuple index, closure "
+      "variable, six data expressions over self.n) x 3 uses of self x 4 contexts (method value, local, closure, inside a method of a third blob literal): 144 programs; "
+      "SyltSem binds self of a literal only in the fields that are function literals. "
       "Second direction (trace validation, spec/Trace_Sem.tla, docs/C01-corpus.md): the maintainers' own programs under /repo/tests (not generated from the "
       "specification) are compiled and run by the real tool chain, the run is recorded (program as the real parser read it, printed lines, terminal status) and "
       "TLC executes each recorded program with SyltSem and accepts the record only if SyltSem's print texts and status equal the recorded ones (thorough: all "
       "in-model files, ~200 of the 223 the compiler accepts; quick: a seeded stratified sample of 40); corrupted recordings and altered programs are negative controls.",
       "Trusted: TLC, SyltSem/SyltValues as the reading of 'what the source denotes', the printer, minilua as stand-in for Lua 5.3 (none exists in the sandbox). "
-      "Numbers are small ints and dyadic floats; dict/set iteration order, i64 overflow and float rounding are outside the model.",
+      "Numbers are small ints and dyadic floats, and in SyltLimits 64-bit ints and the doubles m*2^x with |m| < 10^6, the infinities, NaN, -0.0; dict/set iteration "
+      "order, float results that would be rounded, division by zero and the sign a NaN is printed with are outside the model (dropped, never judged).",
       "TLA+ reference semantics executed by TLC over a pairwise-nesting program universe; replay into compiler + Lua interpreter", "DESIGN.md 5.6, 8/C01")
